@@ -384,6 +384,18 @@ func (r *ringRun[T]) apply(op Op) string {
 		if !r.b.eq(got, c[:j]) {
 			return r.errf("e%d.Each (stopped at %d) lists %s, want %s", rid, j, r.b.list(got), r.b.wants(c[:j]))
 		}
+		// a second Each (and Len) from inside the callback of the first, at element j
+		var outer, inner []T
+		r.el[rid-1].Each(func(v T) bool {
+			if outer = append(outer, v); len(outer) == j {
+				r.el[rid-1].Each(func(w T) bool { inner = append(inner, w); return true })
+				_ = r.el[rid-1].Len()
+			}
+			return true
+		})
+		if !r.b.eq(outer, c) || !r.b.eq(inner, c) {
+			return r.errf("e%d.Each with a second Each run inside its callback (at element %d) lists %s and %s, want %s", rid, j, r.b.list(outer), r.b.list(inner), r.b.wants(c))
+		}
 		return ""
 	}
 	return r.errf("VK-INFRA unknown op kind %q", op.K)
@@ -415,6 +427,7 @@ func runRingOf[T any](c RingCase, o *vk.Obs, b *bound[T]) string {
 	r := &ringRun[T]{b: b, c: c, step: -1, ids: map[*ring.Ring[T]]int{}}
 	ctx := r.errf
 	for i, op := range c.Ops {
+		o.Step() // interleaved execution (vk.Interleave) switches to the other case here
 		r.step = i
 		if msg := guarded(ctx, func() string {
 			if m := r.apply(op); m != "" {
